@@ -233,6 +233,26 @@ def check_time(rep, fl):
     b = facts.body(TIME + "::get_ttl")
     at, entry = dataflow(b)
     zero = A(call("std::time::Duration::is_zero", d))
+
+    def d_le_elapsed(s_):
+        """What the path knows about `d <= elapsed` (the entry's age has reached its lifetime), whichever way round and
+        with whichever of <, <=, >, >= the test is written: True / False / None."""
+        is_el = lambda x_: is_call(strip_unwrap(x_), "SystemTime::elapsed")
+        for a_, v_ in s_.lits:
+            if not (a_[0] == "call" and isinstance(a_[1], str) and len(a_[2]) == 2):
+                continue
+            x_, y_ = a_[2]
+            if a_[1].endswith("PartialOrd::le"):
+                if x_ == d and is_el(y_):
+                    return bool(v_)
+                if y_ == d and is_el(x_) and v_ is False:
+                    return True        # !(elapsed <= d): d < elapsed
+            if a_[1].endswith("PartialOrd::lt"):
+                if y_ == d and is_el(x_):
+                    return not v_      # elapsed < d  <=>  !(d <= elapsed)
+                if x_ == d and is_el(y_) and v_ is True:
+                    return True        # d < elapsed
+        return None
     okall = True
     kinds = set()
     for rbi, rsi in b.defs.get(0, []):
@@ -244,7 +264,7 @@ def check_time(rep, fl):
         elif e[0] in ("cstr", "named") and "ZERO" in str(e):
             kinds.add("zero")
             for s in sts:
-                okall = okall and feval(zero, s) is False and any(is_call(a, "PartialOrd::le") and a[2][0] == d and is_call(strip_unwrap(a[2][1]), "SystemTime::elapsed") and v for a, v in s.lits)
+                okall = okall and feval(zero, s) is False and d_le_elapsed(s) is True
         elif is_call(e, "Duration::saturating_sub") and len(e[2]) == 2:
             # d.saturating_sub(elapsed): ZERO when elapsed >= d, d - elapsed otherwise - both cases in one expression
             kinds |= {"zero", "sub"}
@@ -255,7 +275,7 @@ def check_time(rep, fl):
             kinds.add("sub")
             okall = okall and e[2][0] == d and is_call(strip_unwrap(e[2][1]), "SystemTime::elapsed") and norm(strip_unwrap(e[2][1])[2][0]) == created
             for s in sts:
-                okall = okall and feval(zero, s) is False and any(is_call(a, "PartialOrd::le") and a[2][0] == d and not v for a, v in s.lits)
+                okall = okall and feval(zero, s) is False and d_le_elapsed(s) is False
         else:
             okall = False
     rep.check(okall and kinds == {"max", "zero", "sub"}, "R03.3", fl, b, "get_ttl",
